@@ -82,6 +82,13 @@ class C12(Prop):
                 vias = ("lib", "cli", "config")
             for via in vias:
                 out.append({"op": "norm", "x": {"kind": "str", "text": s}, "via": via, "clauses": clr})
+        # a valid length given for a payload of tens of thousands of pieces: recorded as given, whatever the piece count
+        for xs, size in (("14", 2 ** 29 + 1), ("16384", 2 ** 29 + 2 ** 14), ("15", 2 ** 30 + 5)):
+            for via, ver in (("lib", 1), ("cli", 1), ("lib", 2)):
+                if tier != "thorough" and (via, ver) == ("lib", 2) and xs != "14":
+                    continue
+                out.append({"op": "norm", "x": {"kind": "str", "text": xs}, "via": via, "version": ver, "payload_size": size,
+                            "clauses": clr})
         # automatic choice, ascending sizes (monotonicity is judged along this order)
         sizes = {0, 1, 16384, 2 ** 50, 2 ** 50 - 1, 2 ** 40 + 1}
         for e in range(14, 26):
